@@ -115,11 +115,16 @@ def run_path(I, c, fn, module, res):
         if a.kwarg:
             params.append(a.kwarg.arg)
         shapes = c.params or {}
+        from .shapes import SameAs
         for p in params:
             if p in shapes:
-                fr.env[p] = shapes[p].make(ctx, p)
+                if not isinstance(shapes[p], SameAs):
+                    fr.env[p] = shapes[p].make(ctx, p)
             else:
                 raise Unsupported('contract for %s gives no shape for parameter %s' % (c.qualname, p))
+        for p in params:
+            if isinstance(shapes[p], SameAs):
+                fr.env[p] = I.pure_eval(shapes[p].path, fr)
         for p, s in shapes.items():
             if p not in params and not p.startswith('$'):
                 raise Unsupported('contract names parameter %s which %s does not have' % (p, c.qualname))
